@@ -162,6 +162,22 @@ def eval_pair(r, trains, edges, max_tau, mrts, be, rank=()):
               "un-normalised directionality is not the sum of A's values / not negated by swap",
               rank)
         return
+    # normalize given as 0 / 1 or numpy.bool_ means the same as the Python bool
+    try:
+        for tn, conv in (("int", int), ("numpy.bool_", np.bool_)):
+            tv = [float(spk.spike_train_order(st1, st2, normalize=conv(False), **kw)),
+                  float(spk.spike_directionality(st1, st2, normalize=conv(False), **kw)),
+                  float(spk.spike_directionality(st1, st2, normalize=conv(True), **kw)),
+                  float(spk.spike_train_order(st1, st2, normalize=conv(True), **kw))]
+            ref = [vu, du, dn, v]
+            if not all((a == b) or abs(a - b) <= TOL or (a != a and b != b) for a, b in zip(tv, ref)):
+                _viol(r, "typed_normalize", be, cls, dict(case, normalize_given_as=tn), ref, tv,
+                      "normalize given as %s is not treated like the Python bool" % tn, rank)
+                return
+    except Exception as e:
+        _viol(r, "typed_normalize", be, cls, case, "results", "%s: %s" % (type(e).__name__, e),
+              "normalize given as int / numpy.bool_ raised", rank)
+        return
     if len(A) > 0:
         if not abs(dn - s1 / len(A)) <= TOL:
             _viol(r, "directionality.normalized", be, cls, case, s1 / len(A), dn,
